@@ -832,10 +832,18 @@ Proof.
   destruct (get_all w os); [|inversion H; auto]. apply attach_err in H. eapply join_trajs_err; eauto.
 Qed.
 
+Lemma mdjoin_reduce_err v w0 : forall rest w acc dis w' e,
+  mdjoin_reduce v w0 w acc rest dis = (w', RErr e) -> w' = w0.
+Proof.
+  induction rest as [|o rest IH]; intros w acc dis w' e H; cbn [mdjoin_reduce] in H; [discriminate|].
+  destruct (join_pair v w acc o dis) as [w1 [|e1]]; [|inversion H; auto].
+  destruct (nth_error (trajs w1) (length (trajs w))) as [nt|]; [|inversion H; auto]. eapply IH; eauto.
+Qed.
+
 Lemma mdjoin_err v w rs dis w' e : do_mdjoin v w rs dis = (w', RErr e) -> w' = w.
 Proof.
   unfold do_mdjoin. intros H. destruct (get_all w rs) as [[|t [|o rest]]|]; try (inversion H; auto; fail).
-  apply attach_err in H. eapply join_trajs_err; eauto.
+  eapply mdjoin_reduce_err; eauto.
 Qed.
 
 Lemma join_step_full v w r others ct dis w' :
@@ -848,20 +856,97 @@ Proof.
   destruct (join_attached_ok _ _ _ _ _ _ _ _ H) as [t' [plan F]]. exists t, os, t', plan. auto.
 Qed.
 
+Lemma get_all_In w rs ts : get_all w rs = Some ts -> forall t, In t ts -> In t (trajs w).
+Proof.
+  revert ts; induction rs as [|r rest IH]; intros ts H t Hin; cbn in H.
+  - inversion H; subst. destruct Hin.
+  - destruct (nth_error (trajs w) r) eqn:E; [|discriminate]. destruct (get_all w rest) eqn:G; [|discriminate].
+    inversion H; subst. destruct Hin as [<-|Hin]; [eapply nth_error_In; eauto|eapply IH; eauto].
+Qed.
+
+(* what md.join (the pairwise reduction) guarantees about its result, relative to the first operand t *)
+Definition cell_shape (t t' : traj) : Prop :=
+  if have_cell t then exists l a, ul t' = Some l /\ ua t' = Some a else ul t' = None /\ ua t' = None.
+
+Definition mdjoin_facts (w : world) (t : traj) (w' : world) (t' : traj) : Prop :=
+  trajs w' = trajs w ++ [t'] /\ hext w w' /\ cell_shape t t' /\ na t' = na t /\ chains t' = chains t /\
+  lengths_ok t' = true /\ reg_ok w' t' /\ fresh_reg w t'.
+
+Lemma reg_ok_same_heap w w' t : hx w' = hx w -> nbuf w' = nbuf w -> ntop w' = ntop w -> reg_ok w t -> reg_ok w' t.
+Proof.
+  intros H1 H2 H3 [[A [B C]] I]. split.
+  - unfold traj_wf, buf_of in *. rewrite H1. auto.
+  - unfold ids_below in *. rewrite H2, H3. exact I.
+Qed.
+
+Lemma fresh_reg_mono w0 w t : hext w0 w -> fresh_reg w t -> fresh_reg w0 t.
+Proof.
+  intros He [F1 [F2 [F3 [F4 [F5 F6]]]]]. pose proof (hext_hx_len _ _ He). destruct He as [_ [Hn Ht]].
+  unfold fresh_reg, oarr_above in *. splits; try lia.
+  - destruct (ul t); auto; lia.
+  - destruct (ua t); auto; lia.
+  - destruct (tr t); auto; lia.
+Qed.
+
+Lemma have_cell_of_shape t t' : cell_shape t t' -> have_cell t' = have_cell t.
+Proof.
+  unfold cell_shape. destruct (have_cell t) eqn:E.
+  - intros [l [a [H1 H2]]]. unfold have_cell. now rewrite H1, H2.
+  - intros [H1 H2]. unfold have_cell. now rewrite H1.
+Qed.
+
+(* one pairwise step of the reduction *)
+Lemma join_pair_ok v w acc o dis w1 :
+  join_pair v w acc o dis = (w1, ROk) -> exists nt plan, join_facts v w acc [o] dis w1 nt plan.
+Proof. unfold join_pair. intros H. exact (join_attached_ok _ _ _ _ _ _ _ _ H). Qed.
+
+Lemma mdjoin_reduce_ok v w0 t0 : forall rest w acc dis w',
+  hext w0 w -> reg_ok w acc -> fresh_reg w0 acc -> lengths_ok acc = true ->
+  na acc = na t0 -> chains acc = chains t0 -> cell_shape t0 acc ->
+  mdjoin_reduce v w0 w acc rest dis = (w', ROk) ->
+  exists t', mdjoin_facts w0 t0 w' t' /\ hext w w'.
+Proof.
+  induction rest as [|o rest IH]; intros w acc dis w' He Hreg Hfr Hlen Hna Hch Hcs H; cbn [mdjoin_reduce] in H.
+  - inversion H; subst w'; clear H. exists acc. split.
+    + unfold mdjoin_facts. splits; auto.
+      all: try (apply (reg_ok_same_heap w); auto; fail).
+      all: destruct He as [Hx [Hn Ht]]; unfold hext; splits; cbn; auto.
+    + unfold hext. splits; cbn; auto. exists []. now rewrite app_nil_r.
+  - destruct (join_pair v w acc o dis) as [w1 [|e1]] eqn:J; [|discriminate].
+    destruct (join_pair_ok _ _ _ _ _ _ J) as [nt [plan JF]].
+    pose proof JF as [F1 [F2 [F3 [F4 [F5 [F6 [F7 [F8 [Ftr [F10 [F11 [F12 _]]]]]]]]]]]].
+    rewrite F2, nth_error_app_last in H.
+    assert (He1 : hext w0 w1) by (eapply hext_trans; eauto).
+    assert (Hcs1 : cell_shape t0 nt).
+    { unfold cell_shape in *. rewrite (have_cell_of_shape _ _ Hcs) in F6.
+      destruct (have_cell t0); [destruct F6 as [l [a [U1 [U2 _]]]]; eauto|exact F6]. }
+    destruct (IH w1 nt dis w' He1 F11 (fresh_reg_mono _ _ _ He F12) F10 (eq_trans F7 Hna) (eq_trans F8 Hch) Hcs1 H)
+      as [t' [MF He']].
+    exists t'. split; [exact MF|]. eapply hext_trans; eauto.
+Qed.
+
 Lemma mdjoin_step_full v w rs dis w' :
   step v w (OMdJoin rs dis) = (w', ROk) ->
-  exists t o rest t' plan, get_all w rs = Some (t :: o :: rest) /\ join_facts v w t (o :: rest) dis w' t' plan.
+  exists t o rest t', get_all w rs = Some (t :: o :: rest) /\ mdjoin_facts w t w' t'.
 Proof.
   cbn [step]. unfold do_mdjoin. intros H.
   destruct (get_all w rs) as [[|t [|o rest]]|] eqn:Ho; try discriminate.
-  destruct (join_attached_ok _ _ _ _ _ _ _ _ H) as [t' [plan F]]. exists t, o, rest, t', plan. auto.
+  exists t, o, rest. cbn [mdjoin_reduce] in H.
+  destruct (join_pair v w t o dis) as [w1 [|e1]] eqn:J; [|discriminate].
+  destruct (join_pair_ok _ _ _ _ _ _ J) as [nt [plan JF]].
+  pose proof JF as [F1 [F2 [F3 [F4 [F5 [F6 [F7 [F8 [Ftr [F10 [F11 [F12 _]]]]]]]]]]]].
+  rewrite F2, nth_error_app_last in H.
+  assert (Hcs1 : cell_shape t nt).
+  { unfold cell_shape. destruct (have_cell t); [destruct F6 as [l [a [U1 [U2 _]]]]; eauto|exact F6]. }
+  destruct (mdjoin_reduce_ok v w t rest w1 nt dis w' F3 F11 F12 F10 F7 F8 Hcs1 H) as [t' [MF He']].
+  exists t'. split; [reflexivity|exact MF].
 Qed.
 
 Ltac join_facts_tac H :=
   first [ destruct (join_step_full _ _ _ _ _ _ _ H)
             as [?t [?os [t' [?plan [_ [_ [_ [Ht [He [_ [_ [_ [_ [_ [Htr [Hlen [Hreg [Hfresh _]]]]]]]]]]]]]]]]]]
         | destruct (mdjoin_step_full _ _ _ _ _ H)
-            as [?t [?o [?rest [t' [?plan [_ [_ [Ht [He [_ [_ [_ [_ [_ [Htr [Hlen [Hreg [Hfresh _]]]]]]]]]]]]]]]]]] ].
+            as [?t [?o [?rest [t' [_ [Ht [He [_ [_ [_ [Hlen [Hreg Hfresh]]]]]]]]]]]] ].
 
 Lemma stack_err w r r' w' e : do_stack w r r' = (w', RErr e) -> w' = w.
 Proof. unfold do_stack. intros H. err_tac H. Qed.
@@ -888,14 +973,6 @@ Proof.
 Qed.
 
 (* ------------------------------------------------------------------ every step keeps the world well-formed *)
-Lemma get_all_In w rs ts : get_all w rs = Some ts -> forall t, In t ts -> In t (trajs w).
-Proof.
-  revert ts; induction rs as [|r rest IH]; intros ts H t Hin; cbn in H.
-  - inversion H; subst. destruct Hin.
-  - destruct (nth_error (trajs w) r) eqn:E; [|discriminate]. destruct (get_all w rest) eqn:G; [|discriminate].
-    inversion H; subst. destruct Hin as [<-|Hin]; [eapply nth_error_In; eauto|eapply IH; eauto].
-Qed.
-
 Lemma reg_ok_set_tr w t c : reg_ok w t -> oarr_below (nbuf w) c -> reg_ok w (set_tr t c).
 Proof. intros [H1 H2] Hc. split; [exact H1|]. unfold set_tr. ids_tac. Qed.
 
@@ -1242,6 +1319,27 @@ Proof.
   destruct (tr o) as [co|] eqn:Eo; [|discriminate]. exact (proj2 (cache_ok_inv _ _ _ Eo Hall)).
 Qed.
 
+(* the pairwise reduction of md.join keeps the cache invariant at every intermediate step *)
+Lemma mdjoin_reduce_cache v w0 : forall rest w acc dis w',
+  slice_indexes_traces v = true -> hext w0 w -> cache_ok w acc = true ->
+  (forall o, In o rest -> cache_ok w0 o = true /\ xb o < length (hx w0)) ->
+  mdjoin_reduce v w0 w acc rest dis = (w', ROk) ->
+  exists t', trajs w' = trajs w0 ++ [t'] /\ cache_ok w' t' = true.
+Proof.
+  induction rest as [|o rest IH]; intros w acc dis w' Hs He Hc Hall H; cbn [mdjoin_reduce] in H.
+  - inversion H; subst w'; clear H. exists acc. split; [reflexivity|]. unfold cache_ok, frames, buf_of in *. exact Hc.
+  - destruct (join_pair v w acc o dis) as [w1 [|e1]] eqn:J; [|discriminate].
+    destruct (join_pair_ok _ _ _ _ _ _ J) as [nt [plan JF]].
+    pose proof JF as [F1 [F2 [F3 _]]].
+    rewrite F2, nth_error_app_last in H.
+    apply (IH w1 nt dis w' Hs (hext_trans _ _ _ He F3)); auto.
+    + eapply (join_cache_ok v w acc [o] dis w1 nt plan); eauto.
+      intros o0 [<-|[<-|[]]]; [exact Hc|].
+      destruct (Hall o (or_introl eq_refl)) as [Hco Hxo].
+      rewrite (cache_ok_ext w0 w o); [exact Hco|]. apply hext_frames; auto.
+    + intros o0 Hin. apply Hall. right. exact Hin.
+Qed.
+
 Lemma step_cinv v w o w' r :
   slice_indexes_traces v = true -> aslice_inplace_resets v = true ->
   wf w -> cinv w -> inplace_guard w o = true -> step v w o = (w', r) -> cinv w'.
@@ -1259,11 +1357,17 @@ Proof.
     intros o Hin. unfold cinv in Hc. rewrite Forall_forall in Hc. apply Hc.
     destruct Hin as [<-|Hin]; [eapply nth_error_In; eauto|eapply get_all_In; eauto].
   - (* md.join *) destruct r as [|e]; [|apply mdjoin_err in H; subst; auto].
-    fold (step v w (OMdJoin rs dis)) in H.
-    destruct (mdjoin_step_full _ _ _ _ _ H) as [t [o [rest [t' [plan [Ho JF]]]]]].
-    pose proof JF as [_ [Ht [He _]]].
-    eapply cinv_of_new; eauto. eapply join_cache_ok; eauto.
-    intros o0 Hin. unfold cinv in Hc. rewrite Forall_forall in Hc. apply Hc. eapply get_all_In; eauto.
+    pose proof H as H0. fold (step v w (OMdJoin rs dis)) in H0.
+    destruct (mdjoin_step_full _ _ _ _ _ H0) as [t [o [rest [t' [Ho [Ht [He _]]]]]]].
+    unfold do_mdjoin in H. rewrite Ho in H.
+    assert (Hin : forall x, In x (t :: o :: rest) -> cache_ok w x = true /\ xb x < length (hx w)).
+    { intros x Hx. pose proof (get_all_In _ _ _ Ho x Hx) as Hxin. split.
+      - unfold cinv in Hc. rewrite Forall_forall in Hc. auto.
+      - unfold wf in Hwf. rewrite Forall_forall in Hwf. destruct (Hwf x Hxin) as [[? _] _]. auto. }
+    destruct (mdjoin_reduce_cache v w (o :: rest) w t dis w' Hs1 (hext_refl w) (proj1 (Hin t (or_introl eq_refl)))) as [t2 [Ht2 Hc2]]; auto.
+    { intros x Hx. apply Hin. right. exact Hx. }
+    rewrite Ht in Ht2. apply app_inj_tail in Ht2. destruct Ht2 as [_ <-].
+    eapply cinv_of_new; eauto.
   - (* stack *) destruct r as [|e]; [|apply stack_err in H; subst; auto].
     destruct (nth_error (trajs w) r0) as [t|] eqn:Hr; [|unfold do_stack in H; rewrite Hr in H; discriminate].
     destruct (nth_error (trajs w) r') as [o|] eqn:Hr'; [|unfold do_stack in H; rewrite Hr, Hr' in H; discriminate].
@@ -1745,8 +1849,7 @@ Proof.
       destruct JF as [_ [Ht2 [_ [_ [_ [_ [_ [_ [_ [_ [_ [Hf _]]]]]]]]]]]].
       rewrite Ht in Ht2. apply app_inj_tail in Ht2. destruct Ht2 as [_ <-]. destruct Hf as [? _]. auto.
     + fold (step v w (OMdJoin rs dis)) in H.
-      destruct (mdjoin_step_full _ _ _ _ _ H) as [t0 [o [rest [t2 [plan [_ JF]]]]]].
-      destruct JF as [_ [Ht2 [_ [_ [_ [_ [_ [_ [_ [_ [_ [Hf _]]]]]]]]]]]].
+      destruct (mdjoin_step_full _ _ _ _ _ H) as [t0 [o [rest [t2 [_ [Ht2 [_ [_ [_ [_ [_ [_ Hf]]]]]]]]]]]].
       rewrite Ht in Ht2. apply app_inj_tail in Ht2. destruct Ht2 as [_ <-]. destruct Hf as [? _]. auto.
     + destruct inplace; [discriminate|].
       destruct (nth_error (trajs w) r) as [t0|] eqn:Hr; [|unfold do_atom_slice in H; rewrite Hr in H; discriminate].
@@ -1868,3 +1971,74 @@ Lemma overlap_demo :
   (let w := fst (run v_fix (init_world specs1) ops_overlap) in
    reg_frames_cache w 3 = Some (4, None) /\ reg_frames_cache w 4 = Some (5, None) /\ cinvb w = true).
 Proof. vm_compute. repeat split; reflexivity. Qed.
+
+(* ------------------------------------------------------------------ md.join: the values, as the reduction computes them *)
+Definition pair_parts {A} (dis : bool) (fa fb : list fr) (xa xb : list A) : option (list A) :=
+  match join_plan dis [fa; fb] with Some plan => Some (jparts plan [xa; xb]) | None => None end.
+
+(* left fold of the two-operand join over (frames, field) pairs *)
+Fixpoint red_parts {A} (dis : bool) (fa : list fr) (xa : list A) (rest : list (list fr * list A)) : option (list fr * list A) :=
+  match rest with
+  | [] => Some (fa, xa)
+  | (fb, xb) :: r =>
+    match pair_parts dis fa fb fa fb, pair_parts dis fa fb xa xb with
+    | Some f', Some x' => red_parts dis f' x' r
+    | _, _ => None
+    end
+  end.
+
+Lemma mdjoin_reduce_values v w0 : forall rest w acc dis w',
+  hext w0 w -> (forall o, In o rest -> xb o < length (hx w0)) ->
+  mdjoin_reduce v w0 w acc rest dis = (w', ROk) ->
+  exists t', trajs w' = trajs w0 ++ [t'] /\
+    red_parts dis (frames w acc) (a_val (tm acc)) (map (fun o => (frames w0 o, a_val (tm o))) rest)
+    = Some (frames w' t', a_val (tm t')).
+Proof.
+  induction rest as [|o rest IH]; intros w acc dis w' He Hall H; cbn [mdjoin_reduce] in H.
+  - inversion H; subst w'; clear H. exists acc. split; reflexivity.
+  - destruct (join_pair v w acc o dis) as [w1 [|e1]] eqn:J; [|discriminate].
+    destruct (join_pair_ok _ _ _ _ _ _ J) as [nt [plan JF]].
+    pose proof JF as [F1 [F2 [F3 [F4 [F5 _]]]]].
+    rewrite F2, nth_error_app_last in H.
+    destruct (IH w1 nt dis w' (hext_trans _ _ _ He F3) (fun x Hx => Hall x (or_intror Hx)) H) as [t' [Ht Hv]].
+    exists t'. split; [exact Ht|].
+    cbn [map red_parts]. unfold pair_parts.
+    assert (Hfo : frames w o = frames w0 o) by (apply hext_frames; auto; apply Hall; left; reflexivity).
+    cbn [map] in F1, F4, F5. rewrite Hfo in F1, F4. rewrite F1, <- F4, <- F5. exact Hv.
+Qed.
+
+Lemma mdjoin_values v w rs dis w' t o rest :
+  wf w -> get_all w rs = Some (t :: o :: rest) -> step v w (OMdJoin rs dis) = (w', ROk) ->
+  exists t', trajs w' = trajs w ++ [t'] /\
+    red_parts dis (frames w t) (a_val (tm t)) (map (fun x => (frames w x, a_val (tm x))) (o :: rest))
+    = Some (frames w' t', a_val (tm t')).
+Proof.
+  intros Hwf Ho H. cbn [step] in H. unfold do_mdjoin in H. rewrite Ho in H.
+  apply (mdjoin_reduce_values v w (o :: rest) w t dis w' (hext_refl w)); auto.
+  intros x Hx. unfold wf in Hwf. rewrite Forall_forall in Hwf.
+  destruct (Hwf x (get_all_In _ _ _ Ho x (or_intror Hx))) as [[? _] _]. auto.
+Qed.
+
+(* ------------------------------------------------------------------ stacking more than two: t.stack(o).stack(o2) *)
+Lemma stack_chain w r r' r'' t o o2 w1 w2 :
+  wf w -> nth_error (trajs w) r = Some t -> nth_error (trajs w) r' = Some o -> nth_error (trajs w) r'' = Some o2 ->
+  do_stack w r r' = (w1, ROk) -> do_stack w1 (length (trajs w)) r'' = (w2, ROk) ->
+  exists t2, trajs w2 = trajs w1 ++ [t2] /\
+    frames w2 t2 = zip_stk (zip_stk (frames w t) (frames w o)) (frames w o2) /\
+    na t2 = na t + na o + na o2 /\ chains t2 = (chains t ++ chains o) ++ chains o2 /\
+    tm t2 = tm t /\ tr t2 = None /\ lengths_ok t2 = true /\ (forall x, In x (trajs w) -> xb x <> xb t2).
+Proof.
+  intros Hwf Hr Hr' Hr'' H1 H2.
+  destruct (stack_ok _ _ _ _ _ _ Hwf Hr Hr' H1) as [t1 [Ht1 [He1 [Hf1 [Htm1 [_ [_ [Hna1 [Hch1 [_ [_ [Hreg1 _]]]]]]]]]]]].
+  assert (Hwf1 : wf w1) by (eapply wf_of_new; eauto).
+  assert (Hn1 : nth_error (trajs w1) (length (trajs w)) = Some t1) by (rewrite Ht1; apply nth_error_app_last).
+  assert (Hn2 : nth_error (trajs w1) r'' = Some o2).
+  { rewrite Ht1. rewrite nth_error_app1; [exact Hr''|]. apply nth_error_Some. congruence. }
+  destruct (stack_ok _ _ _ _ _ _ Hwf1 Hn1 Hn2 H2) as [t2 [Ht2 [He2 [Hf2 [Htm2 [_ [_ [Hna2 [Hch2 [Htr2 [Hl2 [_ [Hx2 _]]]]]]]]]]]]].
+  exists t2. split; [exact Ht2|].
+  assert (Ho2 : frames w1 o2 = frames w o2).
+  { apply hext_frames; auto. destruct (wf_lookup _ _ _ Hwf Hr'') as [[? _] _]. auto. }
+  rewrite Hf2, Hf1, Ho2. splits; auto; try congruence; try lia.
+  intros x Hx. unfold wf in Hwf. rewrite Forall_forall in Hwf. destruct (Hwf x Hx) as [[Hb _] _].
+  pose proof (hext_hx_len _ _ He1). lia.
+Qed.
